@@ -200,7 +200,7 @@ def check(rep, ctx):
               message=f"{len(akm)} API keys in the index, Kafka 3.9.0 has {len(API_KEYS)}", file="src/kio/schema/index.py")
     # generator <-> instances (E8) ------------------------------------------------------------------------
     from ..gen import generator_vs_instances
-    R_C = rep.rule("C04-c-generator", "the vocabulary the current generator emits matches the shipped classes and fields", floor=1)
+    R_C = rep.rule("C04-c-generator", "the vocabulary the current generator emits matches the shipped classes and fields", floor=30)
     for row in generator_vs_instances(ctx):
         rep.check(R_C, row["ok"], construct=row["construct"], stmt=row["stmt"], message=row["message"],
                   file=row.get("file", "codegen/generate_schema.py"), line=row.get("line", 0))
